@@ -49,15 +49,16 @@ class InterpolatedCurveBase(FunctionCurveBase, abc.ABC):
         points. The 'count' parameter is ignored as the original points are taken."""
         param_from, param_to = self._get_params(param_from, param_to)
 
-        index_from = int(param_from * self.segments) + 1
-        index_to = int(param_to * self.segments)
+        # break the curve at the parameters of the original points (knots) that
+        # lie between the given parameters; they are not equally spaced
+        # when the curve is parametrized by length (equalize=True)
+        lower, upper = min(param_from, param_to), max(param_from, param_to)
+        knots = [knot for knot in self.function.params if lower < knot < upper]
 
-        if index_from < index_to:
-            indexes = list(range(index_from, index_to + 1))
-        else:
-            indexes = []
+        if param_from > param_to:
+            knots.reverse()
 
-        params = [param_from, *[i / self.segments for i in indexes[:-1]], param_to]
+        params = [param_from, *knots, param_to]
         return f.polyline_length(np.array([self.function(t) for t in params]))
 
 
